@@ -34,6 +34,9 @@ enum O {
         v2: bool,
     },
     Collect { pos: u8, index: u8, v2: bool },
+    /// set_reward_authority / set_reward_authority_by_super_authority naming the authority already in place: an administrative
+    /// hand-over must leave every reward's accounting alone
+    SetAuthority { index: u8, by_super: bool },
     Drain { index: u8 }, // external: the reward authority's vault is (legitimately) emptied down to `keep` by nobody — modelled as a vault with few tokens from the start instead
 }
 
@@ -73,7 +76,8 @@ fn spec(label: &str, enc: [Enc; 3]) -> StdSpec {
         protocol_fee_rate: 300,
         sqrt_price: stdworlds::P0,
         arrays: vec![(-1, enc[0]), (0, enc[1]), (1, enc[2])],
-        positions: vec![(-128, 128, false), (-128, 128, true), (128, 5696, false)],
+        // position 3 lies below a zero-liquidity gap [-192, -128): one swap can leave positions 0 / 1, cross the gap and enter it
+        positions: vec![(-128, 128, false), (-128, 128, true), (128, 5696, false), (-512, -192, false)],
         t22_a: None,
         t22_b: None,
     }
@@ -116,6 +120,7 @@ fn build(label: &str, enc: [Enc; 3], vault0: u64) -> Wd {
         O::Base(Op::Inc { pos: 0, liq: stdworlds::BIG, v2: false }),
         O::Base(Op::Inc { pos: 1, liq: stdworlds::BIG / 3, v2: true }),
         O::Base(Op::Inc { pos: 2, liq: stdworlds::BIG, v2: false }),
+        O::Base(Op::Inc { pos: 3, liq: stdworlds::BIG * 5, v2: true }),
     ];
     let mut emitting = vec![O::InitReward { index: 0, v2: false }];
     emitting.extend(fund.clone());
@@ -210,13 +215,15 @@ fn alphabet() -> Vec<O> {
     a.push(O::Base(Op::Clock(1)));
     a.push(O::Base(Op::Clock(86_400)));
     a.push(O::Base(Op::Clock(0)));
-    for pos in 0..3u8 {
+    for pos in 0..4u8 {
         a.push(O::Base(Op::Update { pos }));
     }
     for a_to_b in [true, false] {
         a.push(O::Base(Op::Swap { a_to_b, exact_in: true, amount: u64::MAX >> 8, lim: Lim::NextTick, v2: a_to_b })); // positions leave / enter range
         a.push(O::Base(Op::Swap { a_to_b, exact_in: true, amount: 1_000_000, lim: Lim::None, v2: !a_to_b }));
     }
+    // one swap from inside positions 0 / 1 across the zero-liquidity gap into position 3
+    a.push(O::Base(Op::Swap { a_to_b: true, exact_in: true, amount: u64::MAX >> 8, lim: Lim::Price(whirlpool::math::sqrt_price_from_tick_index(-256)), v2: true }));
     a.push(O::Collect { pos: 0, index: 0, v2: false });
     a.push(O::Collect { pos: 1, index: 0, v2: true });
     a.push(O::Collect { pos: 2, index: 1, v2: true });
@@ -235,6 +242,8 @@ fn alphabet() -> Vec<O> {
     a.push(O::SetEmissions { index: 0, rate: RATE_1 / 2, v2: false });
     a.push(O::SetEmissions { index: 0, rate: RATE_1 / 2, v2: true });
     a.push(O::InitReward { index: 1, v2: true });
+    a.push(O::SetAuthority { index: 0, by_super: false });
+    a.push(O::SetAuthority { index: 1, by_super: true });
     a.push(O::Base(Op::Inc { pos: 0, liq: stdworlds::BIG, v2: true }));
     a.push(O::Base(Op::Dec { pos: 0, part: Part::All, v2: false }));
     a.push(O::Base(Op::Dec { pos: 1, part: Part::Half, v2: true }));
@@ -398,6 +407,14 @@ impl<'a> M<'a> {
             O::Collect { pos, index, v2 } => {
                 let i = *index as usize;
                 Some(world::ix_collect_reward(&w.positions[*pos as usize], w.lp.owner, self.wd.rwallet[i], self.wd.rmint[i], l.get(&self.wd.rmint[i]).map(|a| a.owner).unwrap_or(world::TOKEN), self.wd.rvault[i], *index, *v2))
+            }
+            O::SetAuthority { index, by_super } => {
+                // the authority stays the same key (the emissions super authority, which also acts as every reward's authority here)
+                Some(if *by_super {
+                    super::c04_world::ix_set_reward_authority_by_super(w.cfg.addr, w.pool.addr, auth, auth, *index)
+                } else {
+                    super::c04_world::ix_set_reward_authority(w.pool.addr, auth, auth, *index)
+                })
             }
             O::Drain { .. } => None,
         }
